@@ -362,6 +362,15 @@ func buildHistory(rt *rapid.T, full bool) (*histBuilder, string) {
 				b.send(a, rnstypes.NewMsgBid(a.Bech, rapid.SampledFrom([]string{"alpha.jkl", "beta.ibc", "gamma.jkl"}).Draw(rt, "name"), sdk.NewInt64Coin("ujkl", rapid.Int64Range(1, 9999).Draw(rt, "bid"))))
 			case 7:
 				a := b.accs[rapid.IntRange(0, len(b.accs)-1).Draw(rt, "acc")]
+				if rapid.IntRange(0, 2).Draw(rt, "blockSeveral") == 0 { // repeated fields carry several entries, some unresolvable
+					n := rapid.IntRange(2, 4).Draw(rt, "entries")
+					var tb []string
+					for q := 0; q < n; q++ {
+						tb = append(tb, rapid.SampledFrom([]string{b.accs[q%len(b.accs)].Bech, b.accs[(q+3)%len(b.accs)].Bech, "alpha.jkl", "beta.ibc", "nobody.jkl", "junk"}).Draw(rt, "toBlock"))
+					}
+					b.send(a, &notiftypes.MsgBlockSenders{Creator: a.Bech, ToBlock: tb})
+					break
+				}
 				to := b.accs[rapid.IntRange(0, len(b.accs)-1).Draw(rt, "to")]
 				b.send(a, &notiftypes.MsgCreateNotification{Creator: a.Bech, To: to.Bech, Contents: fmt.Sprintf(`{"n":%d}`, i*10+j)})
 			case 8:
